@@ -75,6 +75,9 @@ fn is_plain_number(text: &str) -> bool {
     !(text.starts_with("0x") || text.starts_with("0o") || text.starts_with("0b") || text == "NaN" || text == "inf")
 }
 
+/// Symbolic operators that may be written without spaces next to an operand.
+const GLUE_OPS: &[&str] = &["+", "-", "*", "/", "·", "×", "÷", "⋅", "^", "**", "->", "→", "➞", "<", ">", "<=", "≤", ">=", "≥", "==", "!=", "≠", "&&", "||", "|>"];
+
 pub fn render_text(toks: &[Tok], glue: u64) -> String {
     let mut s = String::new();
     for (i, t) in toks.iter().enumerate() {
@@ -90,11 +93,17 @@ pub fn render_text(toks: &[Tok], glue: u64) -> String {
             let prev = &toks[i - 1];
             let bracket = |t: &Tok| matches!(t, Tok::Sym(x) if ["(", ")", "[", "]", ","].contains(&x.as_str()));
             let uexp = matches!(t, Tok::Sym(x) if UEXP.iter().any(|u| u.0 == x));
+            // a symbolic operator (ASCII or Unicode spelling) may be attached to an operand next to
+            // it: `x->y`, `x→y`, `2*x`, `a≤b`; two symbols are never attached to each other (they
+            // could form another operator), word operators keep their spaces
+            let op = |t: &Tok| matches!(t, Tok::Sym(x) if GLUE_OPS.contains(&x.as_str()));
+            let operand = |t: &Tok| matches!(t, Tok::Num(_) | Tok::Ident(_) | Tok::Str(_));
+            let attach = ((op(prev) && operand(t)) || (operand(prev) && op(t))) && (glue >> ((i * 5 + 13) % 64)) & 3 == 1;
             let droppable = bracket(prev) || bracket(t) || uexp;
             // a field access is written `.name`: the tokenizer takes a period that is not
             // directly followed by an identifier character for the start of a number
             let field_name = matches!(prev, Tok::Sym(x) if x == ".") && matches!(t, Tok::Ident(_));
-            let drop = field_name || (droppable && (glue >> (i % 64)) & 1 == 1);
+            let drop = field_name || attach || (droppable && (glue >> (i % 64)) & 1 == 1);
             if !drop {
                 s.push(' ');
                 if (glue >> ((i + 7) % 64)) & 3 == 3 {
